@@ -114,8 +114,8 @@ def create_nxgraph(net, include_pipes=True, respect_status_pipes=True,
     branch_params = {k: v for k, v in kwargs.items() if any(k.startswith(par) for par in branch_kw)}
     loc = locals()
     branch_params.update({"%s_%s" % (par, bc): loc.get("%s_%s" % (par, bc)) for par in branch_kw
-                          for bc in ["pipes", "valves", "pumps", "press_controls",
-                                     "mass_circ_pumps", "pressure_circ_pumps", "valve_pipes",
+                          for bc in ["pipes", "valves", "compressors", "pumps", "press_controls",
+                                     "mass_circ_pumps", "pressure_circ_pumps",
                                      "flow_controls", "heat_consumers"]})
     switch_components = {"pipes": "pi"}
 
@@ -130,7 +130,7 @@ def create_nxgraph(net, include_pipes=True, respect_status_pipes=True,
         respect_status = branch_params.get("respect_status_%s" % include_kw, True) \
             if respect_status_branches_all not in [True, False] else respect_status_branches_all
         # some formulation to add weight
-        weight_getter = branch_params.get("weighting_%ss" % table_name, None)
+        weight_getter = branch_params.get("weighting_%s" % include_kw, None)
         valve_et_filter = switch_components.get(include_kw) if respect_status_valves else None
         add_branch_component(comp, mg, net, table_name, include_comp, respect_status, weight_getter, valve_et_filter)
 
@@ -167,6 +167,10 @@ def add_branch_component(comp, mg, net, table_name, include_comp, respect_status
     if tab is not None:
         in_service_name = comp.active_identifier()
         from_col, to_col = comp.from_to_node_cols()
+        if "et" in tab.columns and "element" in (from_col, to_col):
+            # valves that are attached to a pipe (et == "pi") are no edges between two junctions, they
+            # only affect the edge of their pipe (see valve_et_filter)
+            tab = tab[tab["et"].values == "ju"]
         indices, parameter, in_service = init_par(tab, respect_status, in_service_name)
         indices[:, F_JUNCTION] = tab[from_col].values
         indices[:, T_JUNCTION] = tab[to_col].values
